@@ -4,6 +4,7 @@ import (
 	"go/ast"
 	"go/token"
 	"go/types"
+	"sort"
 	"strings"
 
 	"bebopverif/internal/wire"
@@ -65,8 +66,15 @@ func isMethodCall(n ast.Node, recv, name string) bool {
 		return false
 	}
 	sel, ok := ast.Unparen(call.Fun).(*ast.SelectorExpr)
-	if !ok || sel.Sel.Name != name {
+	if !ok || sel.Sel.Name != apiActual(name) {
 		return false
+	}
+	// the receiver is the token reader, however it is reached (a variable, a
+	// field of a parser value)
+	if (recv == "" || recv == "tr") && roleInfo != nil {
+		if t := roleInfo.TypeOf(sel.X); t != nil && strings.HasSuffix(t.String(), ".tokenReader") {
+			return true
+		}
 	}
 	id, ok := ast.Unparen(sel.X).(*ast.Ident)
 	// "tr" is this code base's name for the token reader; its method names
@@ -168,7 +176,15 @@ func funcsOfFiles(p *load.Prog, pkg *packages.Package, names ...string) []*ast.F
 				break
 			}
 		}
-		if !want[base] {
+		// a file split off one of the named files keeps its stem
+		// (parse.go -> parse_records.go, tokenize.go -> tokenize_literals.go)
+		match := want[base]
+		for n := range want {
+			if strings.HasPrefix(base, strings.TrimSuffix(n, ".go")+"_") && strings.HasSuffix(base, ".go") && !strings.HasSuffix(base, "_test.go") {
+				match = true
+			}
+		}
+		if !match {
 			continue
 		}
 		for _, d := range f.Decls {
@@ -203,12 +219,225 @@ func funcReturnsError(pkg *packages.Package, fd *ast.FuncDecl) bool {
 // spelling: a *tokenReader is "tr", whatever the code calls it.
 var roleInfo *types.Info
 
+// The token reader's API by role. The rules were written against the names
+// this code base gives the roles (Next, UnNext, Token, Err, next, readByte,
+// unreadByte, addError, setNextToken, and the push-back flag keepNextToken);
+// a rename of a method or field is not a change of behaviour, so the names
+// are looked up by what the methods do (discoverTokenAPI) and the rules go
+// through apiActual / apiRole wherever they compare a spelling.
+var apiNames = map[string]string{} // role -> actual name
+var apiRoles = map[string]string{} // actual name -> role
+
+func apiActual(role string) string {
+	if a, ok := apiNames[role]; ok {
+		return a
+	}
+	return role
+}
+
+func apiRole(actual string) string {
+	if r, ok := apiRoles[actual]; ok {
+		return r
+	}
+	// a name that some role owns under another spelling is not that role
+	if _, taken := apiNames[actual]; taken && apiNames[actual] != actual {
+		return "\x00" + actual
+	}
+	return actual
+}
+
+// discoverTokenAPI finds the methods and the push-back flag of the type
+// tokenReader of package bebop by structure:
+//
+//	readByte    calls (*bufio.Reader).ReadByte and returns (byte, error)
+//	unreadByte  calls (*bufio.Reader).UnreadByte
+//	addError    has one error parameter and no result
+//	flag        the bool field set to true in a method without parameters and
+//	            results — that method is UnNext
+//	next        returns bool, no parameters, clears the flag (flag = false)
+//	Next        returns bool, no parameters, calls next
+//	Token       no parameters, returns the package's token type
+//	Err         no parameters, returns error
+//	setNextToken  one parameter of the token type, no result
+func discoverTokenAPI(p *load.Prog) {
+	apiNames, apiRoles = map[string]string{}, map[string]string{}
+	pkg := p.Bebop()
+	info := pkg.TypesInfo
+	tn, _ := pkg.Types.Scope().Lookup("tokenReader").(*types.TypeName)
+	if tn == nil {
+		return
+	}
+	set := func(role, actual string) {
+		if actual == "" {
+			return
+		}
+		if _, dup := apiNames[role]; dup {
+			return
+		}
+		apiNames[role] = actual
+		apiRoles[actual] = role
+	}
+	type meth struct {
+		fn *types.Func
+		fd *ast.FuncDecl
+	}
+	var ms []meth
+	for fn, fd := range p.AllDecls() {
+		if p.Owner(fn) != pkg || fd.Body == nil || fd.Recv == nil {
+			continue
+		}
+		sig, _ := fn.Type().(*types.Signature)
+		if sig == nil || sig.Recv() == nil {
+			continue
+		}
+		rt := sig.Recv().Type()
+		if pt, ok := rt.(*types.Pointer); ok {
+			rt = pt.Elem()
+		}
+		if nt, ok := rt.(*types.Named); !ok || nt.Obj() != tn {
+			continue
+		}
+		ms = append(ms, meth{fn, fd})
+	}
+	sort.Slice(ms, func(i, j int) bool { return ms[i].fn.Pos() < ms[j].fn.Pos() })
+	callsBufio := func(fd *ast.FuncDecl, name string) bool {
+		found := false
+		ast.Inspect(fd.Body, func(n ast.Node) bool {
+			if call, ok := n.(*ast.CallExpr); ok {
+				if cal := load.Callee(info, call); cal != nil && cal.Pkg() != nil && cal.Pkg().Path() == "bufio" && cal.Name() == name {
+					found = true
+				}
+			}
+			return !found
+		})
+		return found
+	}
+	// the flag: a bool field of the receiver assigned the constant true in a
+	// method without parameters or results
+	var flag *types.Var
+	for _, m := range ms {
+		sig := m.fn.Type().(*types.Signature)
+		if sig.Params().Len() != 0 || sig.Results().Len() != 0 {
+			continue
+		}
+		ast.Inspect(m.fd.Body, func(n ast.Node) bool {
+			as, ok := n.(*ast.AssignStmt)
+			if !ok || len(as.Lhs) != 1 || len(as.Rhs) != 1 {
+				return true
+			}
+			sel, ok := ast.Unparen(as.Lhs[0]).(*ast.SelectorExpr)
+			if !ok {
+				return true
+			}
+			if tv := info.Types[as.Rhs[0]]; tv.Value == nil || tv.Value.ExactString() != "true" {
+				return true
+			}
+			if v, ok := info.ObjectOf(sel.Sel).(*types.Var); ok && v.IsField() && flag == nil {
+				if b, isB := v.Type().Underlying().(*types.Basic); isB && b.Kind() == types.Bool {
+					flag = v
+					set("keepNextToken", v.Name())
+					set("UnNext", m.fn.Name())
+				}
+			}
+			return true
+		})
+	}
+	tokenType := pkg.Types.Scope().Lookup("token")
+	for _, m := range ms {
+		sig := m.fn.Type().(*types.Signature)
+		np, nr := sig.Params().Len(), sig.Results().Len()
+		switch {
+		case callsBufio(m.fd, "UnreadByte"):
+			set("unreadByte", m.fn.Name())
+		case callsBufio(m.fd, "ReadByte") && nr == 2:
+			set("readByte", m.fn.Name())
+		case np == 1 && nr == 0 && isErrorType(sig.Params().At(0).Type()):
+			set("addError", m.fn.Name())
+			// the slice of recorded errors it appends to
+			ast.Inspect(m.fd.Body, func(n ast.Node) bool {
+				if as, ok := n.(*ast.AssignStmt); ok && len(as.Lhs) == 1 && len(as.Rhs) == 1 {
+					if sel, ok := ast.Unparen(as.Lhs[0]).(*ast.SelectorExpr); ok {
+						if call, ok := ast.Unparen(as.Rhs[0]).(*ast.CallExpr); ok && wire.Canon(call.Fun) == "append" {
+							if v, ok := info.ObjectOf(sel.Sel).(*types.Var); ok && v.IsField() {
+								set("errs", v.Name())
+							}
+						}
+					}
+				}
+				return true
+			})
+		case np == 1 && nr == 0 && tokenType != nil && types.Identical(sig.Params().At(0).Type(), tokenType.Type()):
+			set("setNextToken", m.fn.Name())
+		case np == 0 && nr == 1 && tokenType != nil && types.Identical(sig.Results().At(0).Type(), tokenType.Type()):
+			set("Token", m.fn.Name())
+		case np == 0 && nr == 1 && isErrorType(sig.Results().At(0).Type()):
+			set("Err", m.fn.Name())
+		}
+	}
+	// next clears the flag; Next calls next
+	var inner *types.Func
+	for _, m := range ms {
+		sig := m.fn.Type().(*types.Signature)
+		if sig.Params().Len() != 0 || sig.Results().Len() != 1 {
+			continue
+		}
+		if b, ok := sig.Results().At(0).Type().Underlying().(*types.Basic); !ok || b.Kind() != types.Bool {
+			continue
+		}
+		clears := false
+		ast.Inspect(m.fd.Body, func(n ast.Node) bool {
+			if as, ok := n.(*ast.AssignStmt); ok && len(as.Lhs) == 1 && len(as.Rhs) == 1 {
+				if sel, ok := ast.Unparen(as.Lhs[0]).(*ast.SelectorExpr); ok && flag != nil && info.ObjectOf(sel.Sel) == types.Object(flag) {
+					if tv := info.Types[as.Rhs[0]]; tv.Value != nil && tv.Value.ExactString() == "false" {
+						clears = true
+					}
+				}
+			}
+			return true
+		})
+		if clears && inner == nil {
+			inner = m.fn
+			set("next", m.fn.Name())
+		}
+	}
+	for _, m := range ms {
+		sig := m.fn.Type().(*types.Signature)
+		if sig.Params().Len() != 0 || sig.Results().Len() != 1 || m.fn == inner {
+			continue
+		}
+		if b, ok := sig.Results().At(0).Type().Underlying().(*types.Basic); !ok || b.Kind() != types.Bool {
+			continue
+		}
+		calls := false
+		ast.Inspect(m.fd.Body, func(n ast.Node) bool {
+			if call, ok := n.(*ast.CallExpr); ok && inner != nil && load.Callee(info, call) == inner {
+				calls = true
+			}
+			return !calls
+		})
+		if calls {
+			set("Next", m.fn.Name())
+		}
+	}
+}
+
 func trCanon(e ast.Expr) string {
 	s := wire.Canon(e)
 	if roleInfo == nil || e == nil {
 		return s
 	}
 	ren := map[string]string{}
+	// methods and fields of the token reader by role
+	ast.Inspect(e, func(n ast.Node) bool {
+		if sel, ok := n.(*ast.SelectorExpr); ok {
+			if r, has := apiRoles[sel.Sel.Name]; has && r != sel.Sel.Name {
+				if t := roleInfo.TypeOf(sel.X); t != nil && strings.HasSuffix(t.String(), ".tokenReader") {
+					s = strings.ReplaceAll(s, "."+sel.Sel.Name, "."+r)
+				}
+			}
+		}
+		return true
+	})
 	ast.Inspect(e, func(n ast.Node) bool {
 		if id, ok := n.(*ast.Ident); ok {
 			if o := roleInfo.ObjectOf(id); o != nil {
@@ -302,5 +531,49 @@ func caseConds(fd *ast.FuncDecl) map[ast.Expr]ast.Expr {
 		}
 		return true
 	})
+	return out
+}
+
+// calleeNamed: the call is to the function or method of package bebop with
+// that name, whether it is written f(…), x.f(…) or pkg.f(…): a function that
+// was made a method of a parser or formatter value keeps its name.
+func calleeNamed(call *ast.CallExpr, name string) bool {
+	switch f := ast.Unparen(call.Fun).(type) {
+	case *ast.Ident:
+		return f.Name == name
+	case *ast.SelectorExpr:
+		if f.Sel.Name != name {
+			return false
+		}
+		if roleInfo != nil {
+			if fn, ok := roleInfo.ObjectOf(f.Sel).(*types.Func); ok {
+				return fn.Pkg() != nil && strings.HasSuffix(fn.Pkg().Path(), "bebop")
+			}
+		}
+		return true
+	}
+	return false
+}
+
+// filesOf: the syntax trees of the named files of pkg and of the files split
+// off them (same stem: parse.go -> parse_records.go).
+func filesOf(p *load.Prog, pkg *packages.Package, names ...string) []*ast.File {
+	var out []*ast.File
+	for _, f := range pkg.Syntax {
+		fn := p.Fset.Position(f.Pos()).Filename
+		base := fn
+		if i := strings.LastIndex(fn, "/"); i >= 0 {
+			base = fn[i+1:]
+		}
+		match := false
+		for _, n := range names {
+			if base == n || (strings.HasPrefix(base, strings.TrimSuffix(n, ".go")+"_") && strings.HasSuffix(base, ".go") && !strings.HasSuffix(base, "_test.go")) {
+				match = true
+			}
+		}
+		if match {
+			out = append(out, f)
+		}
+	}
 	return out
 }
